@@ -11,6 +11,7 @@ import (
 	"os/exec"
 	"sort"
 	"strings"
+	"sync"
 	"testing"
 	"time"
 
@@ -52,6 +53,13 @@ func c03nsSubnet(c c03nsCase) string {
 	return fmt.Sprintf("192.168.50.%d/%d", host, c.Bits)
 }
 
+// extra scenario keys / arguments for callers that drive the same topology differently (C12: interrupts); guarded by the mutex
+var (
+	c03nsExtra         sync.Mutex
+	c03nsExtraScenario map[string]interface{}
+	c03nsExtraArgs     []string
+)
+
 func c03nsRun(c c03nsCase, exitMs int) (*c17Report, []string, error) {
 	sx, tool := os.Getenv("VERIF_SX_BIN"), os.Getenv("VERIF_TOOL_NSRUN")
 	if sx == "" || tool == "" {
@@ -73,6 +81,7 @@ func c03nsRun(c c03nsCase, exitMs int) (*c17Report, []string, error) {
 	if c.Rate != "" {
 		args = append(args, "--rate", c.Rate)
 	}
+	args = append(args, c03nsExtraArgs...)
 	args = append(args, subnet)
 	var inj []map[string]interface{}
 	for _, e := range c.Events {
@@ -83,6 +92,9 @@ func c03nsRun(c c03nsCase, exitMs int) (*c17Report, []string, error) {
 			{"name": "e0", "kind": "veth", "addrs": []string{"192.168.50.2/24"}, "disable_ipv6": true, "mac": c03nsMAC},
 			{"name": "t0", "kind": "tun", "addrs": []string{"10.8.0.2/24"}, "disable_ipv6": true}},
 		"routes": []interface{}{}, "inject": inj, "sx_bin": sx, "sx_args": args, "timeout_s": 40}
+	for k, x := range c03nsExtraScenario {
+		sc[k] = x
+	}
 	raw, _ := json.Marshal(sc)
 	f, err := os.CreateTemp(c08WorkDir(), "c03ns-*.json")
 	if err != nil {
